@@ -29,6 +29,8 @@ def jobs(tier, seed):
 POS_MODULES = [
     "M DEFINITIONS AUTOMATIC TAGS ::= BEGIN\nA ::= SEQUENCE { a INTEGER (0..5) OPTIONAL, b BOOLEAN }\nB ::= CHOICE { x A, y NULL }\nv INTEGER ::= 5\nEND",
     "M DEFINITIONS ::= BEGIN\r\nE ::= ENUMERATED { p(1), q, ... } -- c\r\nL ::= SEQUENCE (SIZE (1..4)) OF E\r\ns UTF8String ::= \"x\"\r\nEND",
+    # information object classes, objects, parameterization, tags, an extensible SET, a bit string value
+    "M DEFINITIONS IMPLICIT TAGS ::= BEGIN\nCL ::= CLASS { &id INTEGER UNIQUE, &Type } WITH SYNTAX { &Type ID &id }\nP {Tp} ::= SET { a [1] Tp, ..., b NULL }\nI ::= P {BOOLEAN}\no CL ::= { NULL ID 1 }\nw BIT STRING ::= '01'B\nEND",
 ]
 JUNK = [37, 126, 96, 36, 63, 35, 92]      # % ~ ` $ ? # \ : characters that start no ASN.1 lexical item
 ASN_SPEC = 'rasn_compiler::lexer::asn_spec'
@@ -42,7 +44,7 @@ def prepare():
 def unit_starts(mod):
     """offsets of the first token of the module header and of every top-level assignment"""
     import re
-    return [0] + [m.start() for m in re.finditer(r'(?m)^[A-Za-z][\w-]* (::=|[A-Z])', mod) if m.start() > 0 and not mod[m.start():].startswith('END')]
+    return [0] + [m.start() for m in re.finditer(r'(?m)^[A-Za-z][\w-]* (::=|[A-Z{])', mod) if m.start() > 0 and not mod[m.start():].startswith('END')]
 
 
 def job_lexpos(prog, chk, mi, k, n, tier):
